@@ -15,13 +15,17 @@ func init() {
 		Explanation: "C04.funnel: every IndexStore.GetIndex (all implementers, enumerated from the type checker) returns the result of IndexFromReader and every IndexWriteStore.StoreIndex writes through Index.WriteTo of the index it was given; local files are created truncating (os.Create / O_TRUNC), so a shorter index never keeps the tail of a longer one. " +
 			"C04.codec-agree: the ordered field sequence FormatEncoder.Encode writes for FormatIndex and FormatTable equals the sequence FormatDecoder.Next reads (extracted from the SSA of both); the index header is 6 words = 48 bytes and WriteTo declares Size 48; the table is written and expected with Size MaxUint64; the tail record has 5 words on both sides with the same marker constant, and the decoder rejects a non-zero fill word and a wrong marker. " +
 			"C04.rejections: every nil-error return of IndexFromReader passed the digest-flag test matching Digest.Algorithm() and, for every table item, the compare(Size, ChunkSizeMax) on its not-greater edge; decoder errors are returned. " +
-			"C04.offsets: IndexFromReader computes Start=lastOffset, Size=Offset-lastOffset (unsigned, unguarded so that a decreasing offset wraps and trips the max-size check), lastOffset=Offset; WriteTo accumulates offset+=Size and writes it with the chunk id.",
+			"C04.offsets: IndexFromReader computes Start=lastOffset, Size=Offset-lastOffset (unsigned, unguarded so that a decreasing offset wraps and trips the max-size check), lastOffset=Offset; WriteTo accumulates offset+=Size and writes it with the chunk id. " +
+			"C04.upload-body-fresh: the HTTP index store hands the retry loop a body function that builds a new reader from Index.WriteTo on every attempt (a reader created once is drained by the first attempt and a retried upload stores a truncated index).",
 		NotDecided: "byte-identical re-encoding of casync-produced files; behaviour of the remote index stores; that ChunkSizeMax itself is sane.",
 		Rules: []rule{
 			{"C04.funnel", "all index stores decode through IndexFromReader and encode through Index.WriteTo; files are truncated", 12, c04Funnel},
 			{"C04.codec-agree", "index header/table written and read as the same field sequence; sizes and tail marker agree", 6, c04Codec},
 			{"C04.rejections", "IndexFromReader rejects a wrong digest flag and any chunk larger than the maximum", 3, c04Rejections},
 			{"C04.offsets", "start/size <-> cumulative offsets are inverse linear maps", 4, c04Offsets},
+			{"C04.upload-body-fresh", "an index upload that is retried sends the whole index again", 1, func(c *Ctx) {
+				retryBodyFresh(c, func(k string) bool { return strings.Contains(k, "Index") })
+			}},
 			{"C04.errors-not-dropped", "no error of the operations this property depends on is dropped", 1, func(c *Ctx) { c.errorsNotDropped("C04") }},
 		},
 	})
@@ -221,7 +225,7 @@ func c04Rejections(c *Ctx) {
 		c.ok("IndexFromReader:decoder-errors", fn.Pos(), "%d decoder calls; failures (truncated input) are returned", sites)
 	}
 	// max-size check in the item loop: every iteration passes the not-greater edge
-	header, body, _ := loopOverLen(fn, func(os []string) bool { return hasAll(os, "field:FormatTable.Items") && !contains(os, "subslice") })
+	header, body, _ := loopOverLen(fn, func(os []string) bool { return len(os) == 1 && hasAll(os, "field:FormatTable.Items") })
 	if header == nil {
 		c.bad("IndexFromReader:item-loop", fn.Pos(), "no loop over all table items")
 	} else {
